@@ -295,7 +295,7 @@ Section Facts.
 
   (* ------------------------------------------------------------------ the state as a function of the trace *)
   Definition best_step (b : score * option pos) (e : ev) : score * option pos :=
-    if sgt (ev_score e) (fst b) then (ev_score e, Some (ev_pos e)) else b.
+    if better (ev_score e) (fst b) (snd b) then (ev_score e, Some (ev_pos e)) else b.
   Definition pb_pair (b : pbar) : score * option pos := (pb_best b, pb_pos b).
 
   Lemma pbar_update_pair (lvl1 : bool) b sc p k r (v : values) :
@@ -303,8 +303,9 @@ Section Facts.
     pb_pair ((if lvl1 then pbar_update_lvl1 else pbar_update_lvl0) b sc p k) = best_step (pb_pair b) (p, v, r).
   Proof.
     intros ->. unfold best_step, pb_pair, ev_score, ev_pos. cbn.
-    destruct lvl1; unfold pbar_update_lvl1, pbar_update_lvl0, new2best; cbn;
-      destruct (sgt (r_score r) (pb_best b)) eqn:G; cbn; rewrite ?G; reflexivity.
+    destruct lvl1; unfold pbar_update_lvl1, pbar_update_lvl0, new2best, better; cbn;
+      destruct (sgt (r_score r) (pb_best b)) eqn:G; cbn; rewrite ?G; cbn;
+      destruct (is_none (pb_pos b) && seqb (r_score r) (pb_best b)); reflexivity.
   Qed.
 
   (* clock index at the start of step i of the call *)
@@ -510,5 +511,68 @@ Section Facts.
       + intros j Hj. symmetry. apply HP; [|apply (Hf eq_refl); lia].
         intros E. apply (f_equal (@length ev)) in E. rewrite firstn_length in E. cbn in E. lia.
       + split; [|assumption]. left. apply Hfull. reflexivity.
+  Qed.
+
+  (* ------------------------------------------------------------------ counters at the end of the loop *)
+  Lemma ended_counters s0 n tr sE b :
+    cinv s0 0 -> n = c_n_iter (d_call s0) -> ended s0 n tr sE b ->
+    d_n_init_search sE = Z.min (zlen tr) (Z.max 0 (d_n_inits_norm s0)) /\
+    d_n_iter_search sE = zlen tr - d_n_init_search sE.
+  Proof.
+    intros H0 Hn [tr' s' Hr Hl | tr' s' s1 s2 p v r Hr Hl Hs R Ho Hk].
+    - destruct (reach_call _ _ _ Hr) as [_ Hnorm]. rewrite <- Hnorm.
+      apply (reach_cinv s0) in Hr; [|assumption|lia]. destruct Hr as (_ & A & B). auto.
+    - destruct (reach_call _ _ _ Hr) as [Hcall Hnorm]. pose proof (zlen_nonneg tr').
+      pose proof Hr as Ci. apply (reach_cinv s0) in Ci; [|assumption|lia].
+      apply search_step_spec in Hs; [|assumption|rewrite Hcall; lia].
+      destruct Hs as [(_ & A & B) _]. apply stop_check_frame in Hk. destruct Hk as (_ & C2 & C3 & C4).
+      rewrite zlen_app, C3, C4, <- Hnorm, <- (sr_norm _ _ _ _ _ _ _ R). auto.
+  Qed.
+
+  (* ------------------------------------------------------------------ optimizer contracts lift to the run *)
+  (* I: an invariant of the optimizer's state; Q: a property of every position it emits *)
+  Record opt_contract (I : ost OP -> Prop) (Q : pos -> Prop) : Prop := {
+    oc_init_pos : forall st st' p, I st -> o_init_pos OP st = Ok (st', p) -> I st' /\ Q p;
+    oc_iterate  : forall st st' p, I st -> o_iterate OP st = Ok (st', p) -> I st' /\ Q p;
+    oc_eval_init : forall st sc st', I st -> o_eval_init OP st sc = Ok st' -> I st';
+    oc_evaluate : forall st sc st', I st -> o_evaluate OP st sc = Ok st' -> I st';
+    oc_finish : forall st st', I st -> o_finish_init OP st = Ok st' -> I st'
+  }.
+
+  Lemma opt_rel_contract I Q s k s' p sc :
+    opt_contract I Q -> I (d_opt s) -> opt_rel s k s' p sc -> I (d_opt s') /\ Q p.
+  Proof.
+    intros C Hi Ho. unfold opt_rel in Ho. destruct (is_init_step s k).
+    - destruct Ho as (o1 & A & B). destruct (oc_init_pos _ _ C _ _ _ Hi A) as [I1 Hq].
+      split; [eapply oc_eval_init; eauto|assumption].
+    - destruct Ho as (o0 & o1 & A & B & D).
+      assert (I0 : I o0).
+      { destruct (k =? d_n_init_search s); [eapply oc_finish; eauto|subst; assumption]. }
+      destruct (oc_iterate _ _ C _ _ _ I0 B) as [I1 Hq].
+      split; [eapply oc_evaluate; eauto|assumption].
+  Qed.
+
+  Lemma stop_check_opt (s : drvO) b (s' : drvO) : stop_check clk s = Ok (b, s') -> d_opt s' = d_opt s.
+  Proof. intros H. apply stop_check_spec in H. destruct H as [_ ->]. reflexivity. Qed.
+
+  Lemma reach_contract I Q s0 tr s :
+    opt_contract I Q -> I (d_opt s0) -> reach s0 tr s -> I (d_opt s) /\ Forall Q (map ev_pos tr).
+  Proof.
+    intros C H0. induction 1 as [|tr s s1 s2 p v r Hr [IH1 IH2] Hs R Ho Hk].
+    - split; [assumption|constructor].
+    - destruct (opt_rel_contract I Q _ _ _ _ _ C IH1 Ho) as [I1 Hq].
+      rewrite (stop_check_opt _ _ _ Hk). split; [assumption|].
+      rewrite map_app. apply Forall_app. split; [assumption|]. constructor; [exact Hq|constructor].
+  Qed.
+
+  Lemma ended_contract I Q s0 n tr sE b :
+    opt_contract I Q -> I (d_opt s0) -> ended s0 n tr sE b -> I (d_opt sE) /\ Forall Q (map ev_pos tr).
+  Proof.
+    intros C H0 [tr' s' Hr Hl | tr' s' s1 s2 p v r Hr Hl Hs R Ho Hk].
+    - eapply reach_contract; eauto.
+    - destruct (reach_contract I Q _ _ _ C H0 Hr) as [I1 F1].
+      destruct (opt_rel_contract I Q _ _ _ _ _ C I1 Ho) as [I2 Hq].
+      rewrite (stop_check_opt _ _ _ Hk). split; [assumption|].
+      rewrite map_app. apply Forall_app. split; [assumption|]. constructor; [exact Hq|constructor].
   Qed.
 End Facts.
